@@ -454,6 +454,13 @@ def run_C12(tier, seed):
     sc, _ = stages.pick_scenarios("capacity", tier, seed, lambda s: nm_of(s) <= 16, 12 if q else 100, prop="C12")
     res.append(stages.trace_stage("C12", "padding", sc, seed, module="TraceVerify", consts={"Strict": "FALSE", "CheckArith": "TRUE", "CheckLayout": "TRUE"}, calls="verify"))
     res.append(stages.simple_mc_stage("C12", "MC_Generators", "CONSTANTS MaxParty = 32 MaxIdx = 64\nSPECIFICATION Spec\nINVARIANTS Injective Layout CapIndep\nCHECK_DEADLOCK FALSE\n", workers=2))
+    # mixtures of capacities and aggregation factors beyond the chunk limit: every chunk selects tables and padding from ITS largest
+    # member (a chunk may hold none of the batch-wide largest members)
+    mixed = lambda s: s["expect"]["verify"] == "ok" and s["sc"]["skew"] == [0, 0, 0] and len({(m["m"], m["v"]["cap"]) for m in s["sc"]["members"]}) >= 2
+    big = stages.api_stage("C12", "batch", tier, seed, groups=("rist",), scale="2:256", scale_min=0, limit=20 if q else 300, filter_fn=mixed)
+    big.name = "api:batch@256"
+    res.append(big)
+    res.append(stages.api_stage("C12", "long", tier, seed, groups=("rist",)))
     return res
 
 
